@@ -92,4 +92,12 @@ PROPS = {
         need_events=["readmessage_calls", "readmessage_ok", "messages_inspected"],
         assumptions=TRUST + ["the memory bound is applied to decoding calls; rendering a decoded tree is legitimately super-linear in depth x size and is only checked for panics and aborts"],
     ),
+    "C17": dict(
+        level="exploration",
+        rule="(a) exhaustively for every AVP definition of every dictionary context (library default set, each embedded file on base, generated): lookups by uint32, int and name for 11 application ids (own, children 16777251/16777238 -> 4 -> 1 -> 0, unrelated, undefined) x 4 vendors (own, wildcard, 0, foreign) x codes {c, c+1, c-1}, compared entry by entry with the reference resolver (and on a sample with a second, scan-based reference); every command x 12 applications and every application id x {no type, auth, acct, other}; (b) generated dictionary sets of 2..4 files (overlapping application ids incl. the static parent map, same code with different vendors, names redefined, same key in later files, typed and untyped applications) loaded in every order, with 245 keys + commands + applications re-queried after each load (reference comparison and monotonicity); (c) every type name in datatype.Available declared, encoded through the API and decoded through ReadMessage; (d) the compiled constants of diam/avp/codes.go, diam/commands.go and diam/applications.go against the embedded XML under autogen.sh's naming rule. distinct_nontrivial counts distinct (dictionary, type, application relation, resolved) classes plus per-suite classes.",
+        runs=dict(quick=[plain("TestC17", 8)], thorough=[plain("TestC17", 16, 3000)]),
+        floor=dict(quick=1000, thorough=5000),
+        need_events=["lookups", "load_orders", "type_roundtrips", "avp_constants_checked"],
+        assumptions=TRUST,
+    ),
 }
